@@ -394,7 +394,10 @@ class Misc(callbacks.Plugin):
         L[-number:] = []
         if msgs:
             for msg in msgs:
-                irc.queueMsg(msg)
+                # A message object can only be sent once (Irc.takeMsg tags
+                # it), and the list a "more <nick>" copied shares its
+                # objects with the original one.
+                irc.queueMsg(ircmsgs.IrcMsg(msg=msg))
         else:
             irc.error(_('That\'s all, there is no more.'))
     more = wrap(more, [additional('seenNick')])
